@@ -10,6 +10,8 @@
 (*   "ver"   all client ranges x SCSV x ECC x all server min/max incl. zero x grade *)
 (*   "suite" all client suite sets / orders x server lists x preference x cert     *)
 (*   "alpn"  all ALPN lists x all server lists x rule / no rule x h2 restrictions  *)
+(*   "gver" / "gsuite" / "galpn": the same three shapes over smaller per-dimension *)
+(*           domains (what the quick tier replays on the real code)                *)
 (* The full cross product is far too large to enumerate; it is sampled (seeded) by  *)
 (* the family driver and evaluated through NegotiateGen's "file" preset.            *)
 EXTENDS Negotiate
@@ -55,6 +57,8 @@ DomVer ==
      prefer |-> IF Thorough THEN BOOLEAN ELSE {TRUE},
      np |-> {<<"h2", "http/1.1">>},
      rules |-> {NoRule, Rule("A+", <<"http/1.1">>), Rule("A", <<"http/1.1">>), Rule("B", <<"h2", "http/1.1">>)}]
+DomGVer == [DomVer EXCEPT !.cgo = {InGoOrder(RsaSuites)}, !.craw = {<<"EG", "EC", "RC", "R3">>},
+                         !.alpn = {<<"h2", "http/1.1">>}, !.ssuites = {<<>>}, !.prefer = {TRUE}]
 DomSuite ==
     [basic |-> Basic({"go", "raw"}, {<<10, 12>>, <<10, 11>>, <<10, 10>>}, {FALSE}, {"ok", "none", "foreign"}),
      cgo |-> GoSeqs(AllSuites),
@@ -69,6 +73,16 @@ DomSuite ==
      prefer |-> BOOLEAN,
      np |-> {<<"h2", "http/1.1">>},
      rules |-> {NoRule}]
+DomGSuite ==
+    [DomSuite EXCEPT
+       !.basic = Basic({"go", "raw"}, {<<10, 12>>, <<10, 11>>}, {FALSE}, {"ok", "none", "foreign"}),
+       !.cgo = GoSeqs(RsaSuites) \cup {<<"XG">>, <<"XG", "EG">>, <<"XG", "EC", "RC">>, InGoOrder(AllSuites)},
+       !.craw = OrderedSubsets(RsaSuites, 1, 1) \cup
+                {<<"RC", "EC">>, <<"EC", "RC">>, <<"R3", "EG">>, <<"EG", "R3">>, <<"RC", "EG">>,
+                 <<"R3", "RC", "EC", "EG">>, <<"XG", "RC", "EG">>, <<"EC", "XG">>},
+       !.alpn = {<<>>}, !.svmm = {<<0, 0>>},
+       !.ssuites = {<<>>, <<"R3", "RC", "EC", "EG", "XG">>, <<"EC", "RC", "EG", "R3">>} \cup OrderedSubsets(AllSuites, 1, 1) \cup
+                   {<<"RC", "EG">>, <<"EG", "RC">>, <<"R3", "EC">>, <<"XG", "EG">>}]
 DomAlpn ==
     [basic |-> Basic({"go", "raw"}, {<<10, 12>>, <<10, 11>>}, {FALSE}, {"ok"}),
      cgo |-> {InGoOrder(RsaSuites), <<"EC", "RC">>},
@@ -81,7 +95,9 @@ DomAlpn ==
      prefer |-> {TRUE},
      np |-> AllAlpn,
      rules |-> {NoRule} \cup {Rule("C", x) : x \in {<<>>, <<"h2">>, <<"http/1.1", "h2">>, <<"spdy/3.1", "http/1.1">>}}]
-D == CASE pre = "ver" -> DomVer [] pre = "suite" -> DomSuite [] OTHER -> DomAlpn
+DomGAlpn == [DomAlpn EXCEPT !.sni = {"a"}, !.svmm = {<<0, 0>>}]
+D == CASE pre = "ver" -> DomVer [] pre = "suite" -> DomSuite [] pre = "alpn" -> DomAlpn
+       [] pre = "gver" -> DomGVer [] pre = "gsuite" -> DomGSuite [] OTHER -> DomGAlpn
 
 Blank == [kind |-> "", min |-> 0, max |-> 0, suites |-> <<>>, scsv |-> FALSE, ecc |-> "", alpn |-> <<>>, sni |-> ""]
 BlankSv == [min |-> 0, max |-> 0, suites |-> <<>>, prefer |-> FALSE, np |-> <<>>, rule |-> NoRule, cert |-> ""]
@@ -105,7 +121,10 @@ S5 == /\ stage = 4
       /\ \E s \in D.ssuites, pf \in D.prefer : sv' = [sv EXCEPT !.suites = s, !.prefer = pf]
       /\ stage' = 5 /\ UNCHANGED <<pre, cl>>
 S6 == /\ stage = 5
-      /\ \E n \in D.np, r \in D.rules : sv' = [sv EXCEPT !.np = n, !.rule = r]
+      \* with a rule for this SNI the global list is not consulted: one value suffices there
+      /\ \E r \in D.rules :
+           \E n \in (IF r.on /\ r.sni = cl.sni /\ Cardinality(D.np) > 1 THEN {<<"http/1.1">>} ELSE D.np) :
+             sv' = [sv EXCEPT !.np = n, !.rule = r]
       /\ stage' = 6 /\ UNCHANGED <<pre, cl>>
 Next == S1 \/ S2 \/ S3 \/ S4 \/ S5 \/ S6
 
